@@ -31,6 +31,8 @@ func main() {
 		os.Exit(cmdCheck(os.Args[2:]))
 	case "vc":
 		os.Exit(cmdVC(os.Args[2:]))
+	case "debug":
+		os.Exit(cmdDebug(os.Args[2:]))
 	case "libcalls":
 		os.Exit(cmdLibCalls(os.Args[2:]))
 	case "list":
@@ -531,6 +533,99 @@ func cmdLibCalls(args []string) int {
 			mark = "*"
 		}
 		fmt.Printf("%s %3d %s %s\n", mark, cnt[k], k, sigs[name])
+	}
+	return 0
+}
+
+// cmdDebug prints the failing path (block sequence with branch conditions) of a refuted obligation.
+func cmdDebug(args []string) int {
+	fs := flag.NewFlagSet("debug", flag.ExitOnError)
+	repo := fs.String("repo", "/repo", "repository")
+	fnKey := fs.String("fn", "", "function key")
+	prop := fs.String("prop", "*", "property")
+	sub := fs.String("ob", "", "obligation name substring")
+	evals := fs.String("eval", "", "extra terms to evaluate, separated by ;")
+	fs.Parse(args)
+	v := load(*repo)
+	f := v.Funcs[*fnKey]
+	if f == nil {
+		fmt.Fprintln(os.Stderr, "no such function")
+		return 2
+	}
+	c := v.newFnCtx(f, *prop)
+	vc, err := c.generate()
+	if err != nil {
+		fmt.Fprintln(os.Stderr, err)
+		return 2
+	}
+	for k, ob := range vc.Obs {
+		if !strings.Contains(ob.Name, *sub) {
+			continue
+		}
+		q := buildQuery(vc, k, false)
+		var terms []string
+		type ex struct {
+			b, e int
+		}
+		var exs []ex
+		for _, b := range vc.Order {
+			terms = append(terms, okName(b))
+			for e, x := range vc.BVC[b].Exits {
+				terms = append(terms, x.Cond)
+				exs = append(exs, ex{b.Index, e})
+			}
+		}
+		for _, t := range terms {
+			q += "(eval " + t + ")\n"
+		}
+		for _, t := range strings.Split(*evals, ";") {
+			if strings.TrimSpace(t) != "" {
+				q += "(eval " + t + ")\n"
+			}
+		}
+		r := runSolver(contextBackground(), solvers[0], q, 30)
+		lines := strings.Split(strings.TrimSpace(r.Output), "\n")
+		fmt.Println(ob.Name, "=>", lines[0])
+		if lines[0] != "sat" {
+			continue
+		}
+		vals := lines[1:]
+		i := 0
+		okv := map[int]string{}
+		condv := map[[2]int]string{}
+		for _, b := range vc.Order {
+			if i < len(vals) {
+				okv[b.Index] = vals[i]
+			}
+			i++
+			for e := range vc.BVC[b].Exits {
+				if i < len(vals) {
+					condv[[2]int{b.Index, e}] = vals[i]
+				}
+				i++
+			}
+		}
+		// walk
+		cur := vc.Fn.Blocks[0]
+		for steps := 0; steps < 200 && cur != nil; steps++ {
+			fmt.Printf("  block %d (%s) ok=%s\n", cur.Index, cur.Comment, okv[cur.Index])
+			var next *ssa.BasicBlock
+			for e, x := range vc.BVC[cur].Exits {
+				cv := condv[[2]int{cur.Index, e}]
+				tgt := -1
+				if x.Target != nil {
+					tgt = x.Target.Index
+				}
+				fmt.Printf("     exit %d -> %d cond=%s\n", e, tgt, cv)
+				if cv == "true" && x.Target != nil && okv[x.Target.Index] == "false" && next == nil {
+					next = x.Target
+				}
+			}
+			cur = next
+		}
+		for ; i < len(vals); i++ {
+			fmt.Println("  eval:", vals[i])
+		}
 	}
 	return 0
 }
